@@ -7,6 +7,8 @@ from checks_reader import parse_kv, finish_proof, cases_count, report_corr
 C01_THEOREMS = ['BinlogVerif.C01.c01_race_free', 'BinlogVerif.C01.c01_fifo_exactly_once',
                 'BinlogVerif.C01.c01_pieces_whole_commits', 'BinlogVerif.C01.c01_window_disjoint',
                 'BinlogVerif.C01.c01_failed_begin_loses_nothing',
+                'BinlogVerif.C01.c01_poll_is_commit_prefix', 'BinlogVerif.C01.c01_fresh_poll_gets_all',
+                'BinlogVerif.C01.c01_fresh_poll_enabled', 'BinlogVerif.C01.c01_release_is_commit_prefix',
                 'BinlogVerif.Generated.queueOrders_sufficient', 'BinlogVerif.Generated.queueAccesses_match', 'BinlogVerif.Generated.queuePlainAccesses_match',
                 'BinlogVerif.Generated.code_race_free', 'BinlogVerif.Generated.code_fifo']
 
